@@ -816,6 +816,48 @@ pub fn run(tier: &Tier) -> i32 {
             cli_verdict(rep, c, "source file / invalid UTF-8", name, b, "", false, 6000, 400_000);
             files.fetch_add(1, Ordering::Relaxed);
         });
+        // (3') command lines: every argument list of up to 3 (thorough 4) elements over the file, a missing file, a
+        //      directory, the documented flag in both spellings, an unknown flag, an empty argument, "--";
+        //      stdin closed, one "n", or unreadable
+        {
+            let alpha: Vec<&str> = vec!["{FILE}", "/nonexistent/x.s", "/", "-i", "--interpreted", "-x", "", "--", "-ii", "--interpreted=1"];
+            let maxlen = if tier.thorough { 4 } else { 3 };
+            let mut lists: Vec<Vec<String>> = vec![vec![]];
+            let mut frontier: Vec<Vec<String>> = vec![vec![]];
+            for _ in 0..maxlen {
+                let mut next = Vec::new();
+                for l in frontier.iter() {
+                    for a in alpha.iter() {
+                        let mut m = l.clone();
+                        m.push(a.to_string());
+                        next.push(m);
+                    }
+                }
+                lists.extend(next.iter().cloned());
+                frontier = next;
+            }
+            let argv_runs = AtomicU64::new(0);
+            lists.par_iter().enumerate().for_each(|(k, av)| {
+                let mut o = CliOpts::default();
+                o.argv = Some(av.clone());
+                o.timeout_ms = 6000;
+                let stdin = match k % 3 {
+                    0 => "",
+                    1 => "n\nn\nn\nn\nn\nn\n",
+                    _ => {
+                        o.stdin_unreadable = true;
+                        ""
+                    }
+                };
+                let out = run_cli_bytes(b"start:\nmov ax, 5\nint 3\nprint reg\n", stdin.as_bytes(), &o);
+                c.add_exec(1);
+                argv_runs.fetch_add(1, Ordering::Relaxed);
+                if let Some(a) = out.abnormal() {
+                    rep.report(Viol { site: "command line".into(), field: "abort".into(), vars: vec![], got_val: None, expected: "exit status 0 or 1 within the watchdog, with a result, a usage text or a diagnostic".into(), got: format!("arguments {:?}: {}: {}", av, a, clip_text(&out.summary(), 700)), case: json!({"argv": av, "stdin": stdin, "stdin_unreadable": o.stdin_unreadable}), weight: av.len() as u64 });
+                }
+            });
+            files.fetch_add(argv_runs.load(Ordering::Relaxed), Ordering::Relaxed);
+        }
         // (4) 1-edit neighbourhoods of the straight-line seeds through the binary: deletion and three
         //     substitutions at every position
         let cli_seeds: Vec<(String, String)> = vec![
@@ -865,7 +907,7 @@ pub fn run(tier: &Tier) -> i32 {
             Gen::Family(_) => json!(null),
         })
         .collect();
-    cov.rule = format!("in-process (each case to the real Preprocessor, and if at most 4 KB also as one line to the real DataParser and Interpreter; executed in child processes of the harness, an abnormal end is bisected to the single culprit): ALL strings of length <= {} over a {}-character alphabet (letters, digits, quotes, brackets, parentheses, punctuation, space, newline, NUL, tab, two non-ASCII characters), ALL sequences of <= 3 tokens over {} terminals of the source grammar, the COMPLETE 1-edit neighbourhood (delete, duplicate, substitute by each alphabet character, append) of {} seeds (the repository's examples and 4 mini programs), 2-edit neighbourhoods of the short seeds, and {} pathological inputs (33 families at sizes 10..10^5: line counts, blank lines, digit counts in every radix, string lengths, bracket / parenthesis nesting, nested macro uses, macro chains, labels, procedures, macro definitions, parameters; empty file, no final newline, CR / CRLF, NUL, BOM, non-ASCII, recursive macros, 1 MB of one character). Print reader: every string of length <= 3 and every 'print a b' / 'print mem a b' over the token alphabet typed as a line of a prompt session of the real binary, plus lines with up to 10^5 digits. Source files through the real binary: all byte strings of length <= 1, length 2 over a {}-byte subset, every family input plain and with -i (closed stdin), invalid UTF-8, and deletion + {} substitutions at every position of two seeds. Verdict: exit status 0/1, no signal, no watchdog expiry (unless the replica loop shows that the mutated program itself does not halt), peak memory and time under coarse ceilings", if tier.thorough { 4 } else { 3 }, sp.chars.len(), sp.toks.len(), sp.seeds.len(), sp.fam.len(), if tier.thorough { 256 } else { 70 }, if tier.thorough { 9 } else { 4 });
+    cov.rule = format!("in-process (each case to the real Preprocessor, and if at most 4 KB also as one line to the real DataParser and Interpreter; executed in child processes of the harness, an abnormal end is bisected to the single culprit): ALL strings of length <= {} over a {}-character alphabet (letters, digits, quotes, brackets, parentheses, punctuation, space, newline, NUL, tab, two non-ASCII characters), ALL sequences of <= 3 tokens over {} terminals of the source grammar, the COMPLETE 1-edit neighbourhood (delete, duplicate, substitute by each alphabet character, append) of {} seeds (the repository's examples and 4 mini programs), 2-edit neighbourhoods of the short seeds, and {} pathological inputs (33 families at sizes 10..10^5: line counts, blank lines, digit counts in every radix, string lengths, bracket / parenthesis nesting, nested macro uses, macro chains, labels, procedures, macro definitions, parameters; empty file, no final newline, CR / CRLF, NUL, BOM, non-ASCII, recursive macros, 1 MB of one character). Print reader: every string of length <= 3 and every 'print a b' / 'print mem a b' over the token alphabet typed as a line of a prompt session of the real binary, plus lines with up to 10^5 digits. Source files through the real binary: all byte strings of length <= 1, length 2 over a {}-byte subset, every family input plain and with -i (closed stdin), invalid UTF-8, and deletion + {} substitutions at every position of two seeds. Verdict: exit status 0/1, no signal, no watchdog expiry (unless the replica loop shows that the mutated program itself does not halt), peak memory and time under coarse ceilings Command lines: every argument list of up to 3 (thorough 4) elements over a 10-element alphabet (the file, a missing file, a directory, -i / --interpreted, unknown and malformed flags, an empty argument, --) with stdin closed / answering / unreadable must end with status 0 or 1.", if tier.thorough { 4 } else { 3 }, sp.chars.len(), sp.toks.len(), sp.seeds.len(), sp.fam.len(), if tier.thorough { 256 } else { 70 }, if tier.thorough { 9 } else { 4 });
     cov.bounds = json!({"in_process_cases": sp.total, "in_process_cases_completed": counted.load(Ordering::Relaxed), "generators": gen_desc, "family_inputs": sp.fam.len(), "prompt_lines": prompt_lines.load(Ordering::Relaxed), "source_files_through_the_binary": files.load(Ordering::Relaxed), "tier": tier.name()});
     cov.assumptions = common_assumptions();
     cov.assumptions.push("'time and memory proportional to the input' is checked only as absolute ceilings on finite families (binary: 10 s / 400 MB below 100 KB of input, 30 s / 1.5 GB above; in-process 120 s) and, within each size family, as a scaling test: from one size to the next the cost per byte (CPU time of the handling thread / child process, so that the load on the machine does not matter) must not grow more than 3-fold once the time exceeds 1 s (on the unchanged tree the largest growth is 1.2, apart from the recorded finding); no asymptotic claim".into());
